@@ -44,7 +44,7 @@ def main():
     livegen.run_live_family(ck, "live_fault_enumeration", livegen.directed_faults(False, rng), chk, PID)
     # simulation: whole-loop scenarios; requests at any timing; races of the latency window with fills / suspension lapses / removals / close
     scs = [simgen.gen_scenario(rng, {"kinds": ["L"] * 8 + ["LOC", "MOC"], "p_manage": 0.75, "p_susp": 0.3, "p_inplay": 0.2, "p_remove": 0.08, "p_fok": 0.15}) for _ in range(800 if thorough else 200)]
-    simcheck.run_family(ck, "simulation_histories", scs, propcheck.c03, "C03", "sim")
+    simcheck.run_family(ck, "simulation_histories", scs, propcheck.c03, "C03", "sim", hyp=True)
     # requests batched in one transaction per strategy call, sent in several instalments (explicit execute() calls between requests, the rest
     # at the end of the block): the implementation alone with the lifecycle checker (the model has one package per request)
     scs4 = []
@@ -73,7 +73,7 @@ def main():
             seen4.add(key)
             ck.fail(key, desc, {"scenario": scs4[i], "detail": det, "how": "harness/impl/simlib.py (txn_begin / txn_exec / txn_end actions) on the real FlumineSimulation"})
     scs3 = [c04.race_scenario(rng) for _ in range(600 if thorough else 150)]
-    simcheck.run_family(ck, "simulation_requests_in_flight_races", scs3, propcheck.c03, "C03", "race")
+    simcheck.run_family(ck, "simulation_requests_in_flight_races", scs3, propcheck.c03, "C03", "race", hyp=True)
     return ck.finish("live: random histories and fault enumeration on the real BetfairOrder guards / BetfairExecution handlers / process_current_orders with a consistent exchange double (delayed responses, exchange-side fills and lapses, snapshots, restarts), every step compared with the Coq live model; status logs checked against the documented lifecycle, rejected requests for an error without side effects, one operation in flight, finality.  simulation: whole-loop scenarios and latency-window races compared with the simulation model; the same transition / guard / finality checker on the orders' status logs and request records")
 
 
